@@ -34,6 +34,7 @@ from .values import (
     Unknown,
     fresh_unknown,
     is_strlike,
+    new_uid,
     sstr,
 )
 
@@ -610,7 +611,14 @@ def _b_map(interp, args, kwargs):
                 if not ok:
                     return
                 row.append(v)
-            yield interp.call(fn, row, {})
+            try:
+                out = interp.call(fn, row, {})
+            except PyRaise as pr:
+                if interp.exc_class_name(pr.exc) == "StopIteration":
+                    interp.emit("swallowed_stopiteration", where="map")
+                    return  # map.__next__ lets it through: the consumer sees a normal end of iteration
+                raise
+            yield out
 
     return AIter(gen(), "map")
 
@@ -623,7 +631,13 @@ def _b_filter(interp, args, kwargs):
             ok, v = interp.next_value(src)
             if not ok:
                 return
-            keep = interp.truth(v, "filter") if fn is None else interp.truth(interp.call(fn, [v], {}), "filter")
+            try:
+                keep = interp.truth(v, "filter") if fn is None else interp.truth(interp.call(fn, [v], {}), "filter")
+            except PyRaise as pr:
+                if interp.exc_class_name(pr.exc) == "StopIteration":
+                    interp.emit("swallowed_stopiteration", where="filter")
+                    return
+                raise
             if keep:
                 yield v
 
@@ -725,6 +739,36 @@ def _dc_replace(interp, args, kwargs):
     vals = {n: v.attrs.get(n) for n, _d in interp.dataclass_fields(v.cls)}
     vals.update(kwargs)
     return interp.instantiate(v.cls, [], vals)
+
+
+def _re_compile(interp, args, kwargs):
+    interp.emit("regex", pattern=args[0] if args else None, op="compile")
+    return ExtObj("re.Pattern", {"pattern": args[0] if args else None})
+
+
+def _re_result(interp, op: str, pattern: Any, text: Any) -> Any:
+    """Constant pattern on a short constant string: the real verdict.  On symbolic text the match is ASSUMED (the
+    symbolic strings stand for well-formed data); the assumption is recorded as an event."""
+    import re as _re
+
+    if isinstance(pattern, str) and isinstance(text, str) and len(text) <= 64:
+        try:
+            m = getattr(_re, op)(pattern, text)
+        except _re.error:
+            raise interp.exc("ValueError", "bad regular expression")
+        return ExtObj("re.Match", {"text": text}) if m else None
+    interp.emit("assumed", what=f"re.{op}({pattern!r}) matches the symbolic string {text!r}")
+    return ExtObj("re.Match", {"text": text})
+
+
+def _re_call(op):
+    def f(interp, args, kwargs):
+        interp.emit("regex", pattern=args[0] if args else None, op=op)
+        if op in ("sub", "subn", "split", "findall"):
+            return fresh_unknown(f"re.{op}")
+        return _re_result(interp, op, args[0] if args else None, args[1] if len(args) > 1 else None)
+
+    return f
 
 
 def _logger(interp, args, kwargs):
@@ -962,6 +1006,11 @@ _EXT = {
     "collections.defaultdict": _defaultdict,
     "copy.copy": _copy,
     "dataclasses.replace": _dc_replace,
+    "re.compile": _re_compile,
+    "re.match": _re_call("match"),
+    "re.fullmatch": _re_call("fullmatch"),
+    "re.search": _re_call("search"),
+    "re.sub": _re_call("sub"),
     "logging.getLogger": _logger,
     "warnings.warn": _noop,
     "threading.Lock": _lock,
@@ -1064,6 +1113,8 @@ def getattr_ext(interp, obj: Any, name: str) -> Any:
             return ExtMethod(obj, obj.kind, name)
         if obj.kind == "logger":
             return ExtMethod(obj, "logger", name)
+        if obj.kind == "re.Pattern":
+            return ExtMethod(obj, "re.Pattern", name)
         if obj.kind == "lock":
             return ExtMethod(obj, "lock", name)
         if obj.kind == "functools.partial":
@@ -1393,6 +1444,11 @@ def call_method(interp, em: ExtMethod, args: list, kwargs: dict) -> Any:
     if k == "logger":
         interp.emit("log", method=em.name)
         return None
+    if k == "re.Pattern":
+        interp.emit("regex", pattern=em.recv.attrs.get("pattern"), op=em.name)
+        if em.name in ("sub", "subn", "split", "findall"):
+            return fresh_unknown(f"re.{em.name}")
+        return _re_result(interp, em.name, em.recv.attrs.get("pattern"), args[0] if args else None)
     if k == "lock":
         interp.emit("lock", method=em.name)
         return True if em.name == "acquire" else None
